@@ -30,8 +30,9 @@ fut = lambda a, i: {"k": "fut", "a": a, "i": i}
 class Gen:
     """random structured host programs over a few arrays and qubits"""
 
-    def __init__(self, rng: random.Random, depth_max=3, allow_qubits=True, bounded=False):
+    def __init__(self, rng: random.Random, depth_max=3, allow_qubits=True, bounded=False, neg=False):
         self.rng = rng
+        self.consts = [0, 1, 2, 3, -1, -2, -3] if neg else [0, 1, 2, 3]     # neg: classical values below zero
         self.bounded = bounded          # long histories: keep values small (TLC integers are 32-bit)
         self.depth_max = depth_max
         self.allow_qubits = allow_qubits
@@ -50,7 +51,7 @@ class Gen:
         h = f"A{self.na}"
         length = length or r.choice([1, 2, 3])
         if defined:
-            vals = [r.choice([0, 1, 2, 3]) for _ in range(length)]
+            vals = [r.choice(self.consts) for _ in range(length)]
             if r.random() < 0.25:
                 vals = [vals[0]] * length        # all-equal initial values trigger the loop optimisation
             self.arrays[h] = length
@@ -76,7 +77,7 @@ class Gen:
         r = self.rng
         p = r.random()
         if p < 0.4:
-            return c(r.choice([0, 1, 2, 3]))
+            return c(r.choice(self.consts))
         if p < 0.55 and loops:
             return lv(r.choice(loops)[0])
         return self.loc(loops)
@@ -177,8 +178,8 @@ class Gen:
         return [{"s": "until", "max": r.choice([1, 2, 3, 4]), "body": body, "t": fut(h, c(0)), "v": r.choice([0, 0, 1]), "cleanup": cleanup}]
 
 
-def random_history(rng: random.Random, nflush: int, per_flush: int, reads=True, depth_max=3) -> Dict[str, Any]:
-    g = Gen(rng, depth_max=depth_max)
+def random_history(rng: random.Random, nflush: int, per_flush: int, reads=True, depth_max=3, neg=False) -> Dict[str, Any]:
+    g = Gen(rng, depth_max=depth_max, neg=neg)
     hist: List[Dict[str, Any]] = [g.new_array(), g.new_array()]
     for f in range(nflush):
         hist += g.stmts(rng.randrange(1, per_flush + 1), 0, [], top=True)
@@ -307,6 +308,10 @@ def build_cases(tier: str, rng: random.Random) -> List[Dict[str, Any]]:
     n = 500 if tier == "quick" else 6000
     for k in range(n):
         cases.append(random_history(rng, nflush=rng.choice([1, 2, 3]), per_flush=rng.choice([2, 3, 5]), depth_max=rng.choice([2, 3])))
+    # classical values below zero (counting down, negative initial values and constants); own random stream
+    rng2 = random.Random(C.seed() * 977 + 5)
+    for k in range(150 if tier == "quick" else 2000):
+        cases.append(random_history(rng2, nflush=rng2.choice([1, 2]), per_flush=rng2.choice([2, 3, 5]), depth_max=rng2.choice([2, 3]), neg=True))
     # flush-placement sweep of random single-flush programs
     for k in range(60 if tier == "quick" else 600):
         base = random_history(rng, nflush=1, per_flush=5, depth_max=2)
